@@ -486,6 +486,8 @@ class FitBase(FileIOMixin, object):
         if not _data_and_cost_compatible:
             raise ValueError("Fit data and cost function are not compatible: %s" % _reason)
         self._set_new_parametric_model()
+        # the model predictions depend on the data container (support values, bin edges, number of entries)
+        self._nexus.get(self._MODEL_NAME).mark_for_update()
         self._param_model._on_error_change_callback = self._on_error_change
         # the new data container and parametric model bring their own (or no) uncertainties
         if self.has_errors:
